@@ -38,6 +38,10 @@ def get_inherited(t: Type) -> Type:
 
     r = base_classes[0]  # type: ignore
 
+    # A class that derives directly from `Generic[T]` has nothing further to inherit from.
+    if get_origin(r) is typing.Generic:
+        return Any  # type: ignore
+
     g_args = get_args(t)
     if len(g_args) > 0:
         mapping = {a.__name__: v for a, v in zip(r.__parameters__, g_args)}
